@@ -23,6 +23,10 @@ CONSTANTS ChunkStarts,    \* values of sequence_number_chunksize_start explored
           ChunkLimit,     \* sequence_number_chunksize_limit
           MaxSeq,         \* scaled MAX_SEQNO: numbers >= MaxSeq must never be issued
           WSize,          \* replay window size of the model
+          Jumps,          \* how many numbers the peer may skip before a fresh request (0 \in Jumps):
+                          \* lost messages, or a peer that restarted and skipped its own chunk;
+                          \* 2*WSize-2 still shifts the window, 2*WSize-1 and more leave it behind
+          MaxJump,        \* number of fresh requests that may skip numbers
           MaxProtect, MaxUnprotect, MaxCrash, MaxClean    \* budgets of the environment
 
 Min2(a, b) == IF a <= b THEN a ELSE b
@@ -79,10 +83,35 @@ NoDisk   == [ex |-> FALSE, next |-> 0, unk |-> FALSE, win |-> NoWin]
 Idle     == [k |-> "idle", step |-> 0, n |-> 0, echo |-> "none", data |-> NoDisk]
 
 Valid(w, size, n) == n >= w.index /\ (n >= w.index + size \/ n \notin w.seen)
+
+(* ReplayWindow.strike_out, by how far n overshoots the upper edge:            *)
+(*   inside   over <= 0          the number is marked, the window stays        *)
+(*   shift    0 < over < size    the window moves up by `over', the part of    *)
+(*                               it that is still covered survives             *)
+(*   past     over >= size       the number lies beyond index + 2*size - 2:    *)
+(*                               nothing of the old window survives            *)
+(* Whatever the regime, strike_out ends with the strike_out_callback (see      *)
+(* BeginUnprotect: the first change of a life time rewrites a persisted window *)
+(* as "unknown").                                                              *)
+Overshoot(w, size, n) == n - (w.index + size - 1)
+Regime(w, size, n) ==
+  IF Overshoot(w, size, n) <= 0 THEN "inside"
+  ELSE IF Overshoot(w, size, n) < size THEN "shift" ELSE "past"
 Strike(w, size, n) ==
-  LET over == n - (w.index + size - 1)
+  LET over == Overshoot(w, size, n) IN
+  CASE over <= 0   -> [w EXCEPT !.seen = @ \cup {n}]
+    [] over < size -> [w EXCEPT !.index = @ + over,
+                                !.seen = {x \in @ : x >= w.index + over} \cup {n}]
+    [] OTHER       -> [w EXCEPT !.index = n - size + 1, !.seen = {n}]
+(* the one-formula reading of the code (shift by the overshoot, whatever it is) *)
+StrikeByShift(w, size, n) ==
+  LET over == Overshoot(w, size, n)
       ni   == IF over > 0 THEN w.index + over ELSE w.index
   IN [w EXCEPT !.index = ni, !.seen = {x \in w.seen : x >= ni} \cup {n}]
+ASSUME StrikeRegimesAgree ==
+  \A i \in 0..2 : \A seen \in SUBSET (i..(i + WSize - 1)) : \A n \in i..(i + 3 * WSize + 1) :
+    LET w == [init |-> TRUE, index |-> i, seen |-> seen]
+    IN Valid(w, WSize, n) => Strike(w, WSize, n) = StrikeByShift(w, WSize, n)
 
 Dead(s) == [s EXCEPT !.alive = FALSE, !.ssn = 0, !.pers = 0, !.chunk = 0, !.rwp = FALSE,
                      !.win = NoWin, !.op = Idle]
@@ -175,7 +204,7 @@ vars == <<s, env, obs, act, hist>>
 EnvInit == [ peerNext |-> 0,        \* next fresh request number of the peer
              sent     |-> << >>,    \* number -> lifetime whose Echo it carried (0: none)
              life     |-> 0,
-             np |-> 0, nu |-> 0, nc |-> 0, nk |-> 0 ]
+             np |-> 0, nu |-> 0, nc |-> 0, nk |-> 0, nj |-> 0 ]
 
 Has(f, k) == k \in DOMAIN f
 Put(f, k, v) == [x \in (DOMAIN f) \cup {k} |-> IF x = k THEN v ELSE f[x]]
@@ -208,17 +237,21 @@ DoProtect ==
             /\ act' = Step("protect", s.ssn, "none")
 
 (* the peer sends a fresh request (possibly answering this lifetime's Echo
-   challenge), or somebody replays an earlier one unchanged *)
+   challenge; possibly after skipping numbers, as far as beyond the whole
+   window), or somebody replays an earlier one unchanged *)
+FreshNumbers == {env.peerNext + j : j \in (IF env.nj < MaxJump THEN Jumps ELSE {0})}
+
 DoUnprotect ==
   /\ s.alive /\ s.op.k = "idle" /\ env.nu < MaxUnprotect
   /\ \E fresh \in BOOLEAN, wantEcho \in BOOLEAN :
-       \E n \in (IF fresh THEN {env.peerNext} ELSE DOMAIN env.sent) :
+       \E n \in (IF fresh THEN FreshNumbers ELSE DOMAIN env.sent) :
          LET echo == IF fresh THEN (IF wantEcho THEN "fresh" ELSE "none")
                      ELSE IF env.sent[n] = env.life THEN "fresh"
                      ELSE IF env.sent[n] = 0 THEN "none" ELSE "stale"
          IN /\ (~fresh => ~wantEcho)
             /\ env' = [env EXCEPT !.nu = @ + 1,
-                                  !.peerNext = IF fresh THEN @ + 1 ELSE @,
+                                  !.nj = IF fresh /\ n > env.peerNext THEN @ + 1 ELSE @,
+                                  !.peerNext = IF fresh THEN n + 1 ELSE @,
                                   !.sent = IF fresh THEN Put(@, n, IF wantEcho THEN env.life ELSE 0) ELSE @]
             /\ IF Accepts(s, n, echo)
                  THEN /\ s' = BeginUnprotect(s, n, echo)
